@@ -201,6 +201,28 @@ pub fn replay(cases: &str, verdicts: &str) {
                         v.check(ok, &format!("Matrix.powi({})", k), lc, &c, json!(g.as_ref().map(|d| fjs(&d.data))));
                     }
                 }
+                // real exponents on operands that are not small integers (x * 1.1 + 0.3): whole-number, negative, large and
+                // beyond-i32 exponents must still be the scalar powf, bit for bit
+                {
+                    let y: Vec<f64> = x.iter().map(|t| t * 1.1 + 0.3).collect();
+                    let vy = Vector::new(y.clone());
+                    for e in [3.0f64, 5.0, -2.0, -0.5, 100.0, -171.0, 3e9, 0.0] {
+                        let exp: Vec<f64> = y.iter().map(|t| f64::powf(*t, e)).collect();
+                        let g = guard(|| vy.powf(e).to_vec());
+                        v.check(g.as_ref().map(|d| same_bits(d, &exp)).unwrap_or(false), &format!("Vector.powf({}) non-integer operands", e), lc, &c, json!(g.as_ref().map(|d| fjs(d))));
+                        if let Some(sh) = shapes.last() {
+                            let m = Matrix { data: vy.clone(), nrows: sh.0, ncols: sh.1 };
+                            let g = guard(|| m.powf(e));
+                            let ok = g.as_ref().map(|r| same_bits(&r.data, &exp) && r.nrows == sh.0 && r.ncols == sh.1).unwrap_or(false);
+                            v.check(ok, &format!("Matrix.powf({}) non-integer operands", e), lc, &c, json!(g.as_ref().map(|d| fjs(&d.data))));
+                        }
+                    }
+                    for k in [-3i32, 5, 17] {
+                        let exp: Vec<f64> = y.iter().map(|t| f64::powi(*t, k)).collect();
+                        let g = guard(|| vy.powi(k).to_vec());
+                        v.check(g.as_ref().map(|d| same_bits(d, &exp)).unwrap_or(false), &format!("Vector.powi({}) non-integer operands", k), lc, &c, json!(g.as_ref().map(|d| fjs(d))));
+                    }
+                }
                 for e in [0.5f64, 2.0, 2.5, 3.0] {
                     let exp: Vec<f64> = x.iter().map(|t| f64::powf(*t, e)).collect();
                     let g = guard(|| vx.powf(e).to_vec());
